@@ -188,12 +188,14 @@ impl<'a> Unparser<'a> {
                     if let Some(k) = k {
                         write!(self, "{}: {}", *k, *v)?;
                     } else {
-                        write!(self, "**{}", *v)?;
+                        self.p("**")?;
+                        self.unparse_expr(v, precedence::EXPR)?;
                     }
                 }
                 for d in unpacked {
                     self.p_delim(&mut first, ", ")?;
-                    write!(self, "**{}", *d)?;
+                    self.p("**")?;
+                    self.unparse_expr(d, precedence::EXPR)?;
                 }
                 self.p("}")?;
             }
